@@ -112,8 +112,9 @@ def run(ctx: common.Ctx):
     ctx.lean_obligations("PtProofs.C02", THEOREMS)
     from .c01 import THEOREMS_KERNEL
     ctx.lean_obligations("PtProofs.C01", THEOREMS_KERNEL)
-    from .c01 import THEOREMS_GEN
+    from .c01 import THEOREMS_GEN, THEOREMS_GEN_RED
     ctx.lean_obligations("PtProofs.C01GenChecks", THEOREMS_GEN)
+    ctx.lean_obligations("PtProofs.C01GenRedEx", THEOREMS_GEN_RED)
     from .cfg_createdat import batch_createdat
     batch_createdat(ctx, "C07")
     nprog = 600 if ctx.thorough else 90
